@@ -160,6 +160,10 @@ def check_bernoulli(case):
         raise Violation("ds:missing-n-accepted", "BernoulliDataset.sample() without n")
     except ValueError:
         pass
+    # an explicit n in the call takes precedence over the n stored in the dataset
+    n0 = n + 3
+    xb = np.asarray(BernoulliDataset(p, n=n0).sample(n, random=False, rng=np.random.default_rng(case["seed"])))
+    require(xb.shape == (n,), "ds:bernoulli-shape", f"BernoulliDataset(p, n={n0}).sample({n}) has shape {xb.shape}")
     # correlated pair
     p1, p2, rho = case["p1"], case["p2"], case["rho"]
     c_ = (1 - p1) * (1 - p2)
@@ -178,6 +182,13 @@ def check_bernoulli(case):
         if valid is True:
             require(not raised, "ds:valid-joint-rejected", f"{ctx}: joint probabilities {pr}")
         if not raised:
+            y2 = np.asarray(CorrelatedBernoullilDataset(p1, p2, rho, n=n + 5).sample(
+                n, random=random, rng=np.random.default_rng(case["seed"])))
+            require(y2.shape == (2, n), "ds:correlated-shape",
+                    f"{ctx}: dataset built with n={n + 5}, sample({n}) has shape {y2.shape}")
+            y3 = np.asarray(CorrelatedBernoullilDataset(p1, p2, rho, n=n).sample(
+                random=random, rng=np.random.default_rng(case["seed"])))
+            require(y3.shape == (2, n), "ds:correlated-shape", f"{ctx}: stored n={n}: shape {y3.shape}")
             y = np.asarray(y)
             require(y.shape == (2, n) and set(np.unique(y).tolist()) <= {0, 1}, "ds:correlated-shape",
                     f"{ctx}: shape {y.shape}")
